@@ -339,17 +339,20 @@ class C18(core.Prop):
         cl.append(('node_count', len(o['nodes']) == n))
         if len(o['nodes']) != n:
             return cl
-        for i in range(n):
-            d = o['nodes'].get(i, {})
-            cl.append(('element_and_charge_preserved', band(d.get('element') == inp['el'][i], gg.val_eq(d.get('charge'), inp['charges'][i]))))
-            if shape['mode'] == 'roundtrip_conf':
-                p = d.get('position')
-                cl.append(('conformer_position_on_own_atom', p is not None and band(*[gg.val_eq(p[c], inp['pos'][i][c]) for c in range(3)])))
-        want = {frozenset((a, b)): od for (a, b), od in zip(shape['edges'], inp['orders'])}
-        got = {frozenset((a, b)): od for a, b, od in o['edges']}
-        cl.append(('bond_set_preserved', set(want) == set(got)))
-        if set(want) == set(got):
-            cl.append(('bond_orders_preserved', band(*[gg.val_eq(got[e], want[e]) for e in want])))
+        # the returned graph is numbered by RDKit atom index: compare up to isomorphism (elements, charges, orders)
+        g = self._graph(shape, inp)
+        back = nx.Graph()
+        for k, d in o['nodes'].items():
+            back.add_node(k, **d)
+        for a2, b2, od in o['edges']:
+            back.add_edge(a2, b2, order=od)
+        cl.append(('chemistry_preserved_up_to_isomorphism', gg.iso_clause(
+            g, back, lambda x, y: band(x.get('element') == y.get('element'), gg.val_eq(x.get('charge'), y.get('charge'))),
+            lambda x, y: gg.val_eq(x.get('order'), y.get('order')))))
+        if shape['mode'] == 'roundtrip_conf':
+            for j in range(n):
+                p = o['nodes'].get(j, {}).get('position')
+                cl.append(('conformer_position_on_own_atom', p is not None and band(*[gg.val_eq(p[c], inp['pos'][j][c]) for c in range(3)])))
         return cl
 
     def sample(self, shape, cinp):
